@@ -113,9 +113,11 @@ def run_property(prop: str, tier: str, runfn, explanation: str, root: str,
     try:
         runfn(ctx)
         # floors: a rule that matched fewer constructs than confirmed by hand is broken
+        anyfail = any(not o.ok for o in ctx.obs)
         for rule, n in ctx.floors.items():
             have = sum(1 for o in ctx.obs if o.rule == rule)
-            if have < n:
+            # a failed obligation may legitimately cut a rule short; it is reported as such
+            if have < n and not anyfail:
                 raise AnalysisError(
                     f"rule {rule} produced {have} instances, expected at least {n} "
                     f"(anchor moved or construct no longer recognised)")
